@@ -516,6 +516,23 @@ def gen_self_program(rng):
         return {"kind": "self", "form": form, "rank": 3, "operands": [dict(x2, ind=[0, 1]), dict(x2, ind=[2, 1])], "out": [0, 2]}
     if form in ("T_matmul", "tensordot00"):
         return {"kind": "self", "form": form, "rank": 3, "operands": [dict(x2, ind=[1, 0]), dict(x2, ind=[1, 2])], "out": [0, 2]}
+    if rng.random() < 0.25:
+        # one label on TWO axes of one occurrence ('ii'): the label has to be unified between the two (differently
+        # chunked) axes as well (regression 85d14bd)
+        ops = [dict(x2, ind=[0, 0])]
+        t = rng.random()
+        if t < 0.35:
+            out = [0]
+        elif t < 0.7:
+            ops.append(dict(x2, ind=rng.choice([[0, 1], [1, 0], [1, 1]])))
+            out = rng.choice([[0], [0, 1], [1, 0], [1]])
+        else:
+            ops.append({"src": 1, "shape": [n], "chunks": [list(gen.rand_chunks(rng, n, maxparts=4))],
+                        "dtype": rng.choice(["int32", "float64"]), "mul": 1, "add": 1, "ind": [0]})
+            out = [0]
+        rng.shuffle(ops)
+        L = 1 + max(j for o in ops for j in o["ind"])
+        return {"kind": "self", "form": form, "rank": L, "operands": ops, "out": out, "repeated": True}
     # blockwise / einsum over L labels, all of length n
     L = rng.choice([2, 3, 3, 4])
     other = None
@@ -702,12 +719,18 @@ def run(ctx, replay=None):
         "(kind chain|where|blockwise, 2-4 operands, rank<=3, broadcast axes, lower-rank operands, dtypes, chunk modes; kind self = "
         "one array occurring 2-3 times under different index patterns with interleaving row/column chunkings: blockwise with "
         "contracted indices, einsum, x@x, x@x.T, x.T@x, tensordot, outer) x "
-        "3 policies x 4 limits, each point from clean registries; a case is distinct by (kind, #operands, rank, policy, "
+        "3 policies x 4 limits, each point from clean registries; unknown-size programs (props_ext/c17_unknown.py): "
+        "boolean-mask selections (rows/columns, mask array or x itself, before/after compute_chunk_sizes) against partners "
+        "stratified over {aligned, same count other cuts, all-ones, other count, one block, broadcast, lower rank, second "
+        "unknown operand, unknown on the other axis} x {single, fused with elemwise ops, reductions} x binop/where/blockwise "
+        "x 3 policies x 2 limits; a case is distinct by (kind, #operands, rank, policy, "
         "limit class, broadcast?, mixed rank?, mixed dtype?, blocks per axis of the result) for programs and by "
         "(family, model output prefix, size class) for correspondence"
     )
     ctx.assumptions = [
-        "known (non-nan) chunk sizes only; zero-length chunks only in the common_blockdim correspondence",
+        "model correspondence: known (non-nan) chunk sizes only; zero-length chunks only in the common_blockdim correspondence",
+        "unknown (nan) chunk sizes (boolean-mask selections, before/after compute_chunk_sizes) are covered by the end-to-end "
+        "search only: outcome = refusal (ValueError) or NumPy's values with one block grid per index",
         "float cost comparisons of policy 'auto' enter the model as an oracle recovered from the real run (limit disabled)",
         "values unchanged is checked end-to-end against NumPy (the theorem is C14's)",
         "each configuration point is evaluated from clean registries (DESIGN §8.7); history dependence is C09's subject",
@@ -717,6 +740,11 @@ def run(ctx, replay=None):
     NPROG = ctx.scale(58, 1150)
     NSELF = ctx.scale(22, 350)
 
+    if replay and isinstance(replay, dict) and isinstance(replay.get("case"), dict) and replay["case"].get("kind") == "unknown":
+        from harness.props_ext import c17_unknown
+
+        c17_unknown.replay(ctx, replay["case"])
+        return
     if replay and isinstance(replay, dict) and isinstance(replay.get("case"), dict) and "operands" in replay["case"]:
         case = {k: v for k, v in replay["case"].items() if k != "detail"}
         res = eval_point(case)
@@ -766,6 +794,11 @@ def run(ctx, replay=None):
     ctx.notes["program_points"] = len(progs) * 12
     ctx.notes["self_operand_program_points"] = NSELF * 12
     ctx.correspond("unify_chunks_expr", corr)
+
+    # ---------------- operands with UNKNOWN (nan) chunk sizes: refusal or NumPy's values (props_ext/c17_unknown.py)
+    from harness.props_ext import c17_unknown
+
+    c17_unknown.run(ctx)
 
     # ---------------- clean-state evaluation == fresh-interpreter evaluation (sampled)
     nfresh = ctx.scale(4, 24)
